@@ -254,3 +254,98 @@ def build_single(module, common, copy_loop, copy_uses, wrap, empty, SEQ):
             loops=[copy_loop(0, 'out0')], uses=copy_uses(0), env=env, hints={'loops_may_be_unreachable': nothing},
             notes='%s, value: %s' % (cname, note)))
     return cs
+
+
+def build_declare(module):
+    """Declare.__call__ (C07: every declared parameter / variable reaches the scope handler): for a list attribute of ANY length
+    the deferrable handler is called once per item, in order, with (dispatcher, item) -- `declared` is the ghost log the handler
+    double appends to -- and the attribute itself is returned; a single Identifier is handed over once; None / [] are returned
+    untouched and nothing is declared; without a handler nothing is called.  An item that is not an Identifier raises TypeError."""
+    from vf.pyvc.dsl import ListOf
+    NS = NODE.sort()
+    NSEQ = z3.SeqSort(NS)
+    ITEMS = z3.Const('declared_items', NSEQ)
+    is_ident = z3.Function('is_identifier', NS, z3.BoolSort())
+    nempty = z3.Empty(NSEQ)
+    cs = []
+
+    def nseq(x):
+        if isinstance(x, PList):
+            x = x.val
+        if isinstance(x, SSeq):
+            return x.t
+        if isinstance(x, list) and not x:
+            return nempty
+        if isinstance(x, list):
+            return z3.Concat(*[z3.Unit(v.t) for v in x]) if len(x) > 1 else z3.Unit(x[0].t)
+        raise TypeError(x)
+
+    def kt(k):
+        return k.t if hasattr(k, 't') else z3.IntVal(k)
+
+    def isinstance_model(e, a, k):
+        if isinstance(a[0], SOpaque) and a[1] is module.Identifier:
+            return SBool(is_ident(a[0].t))
+        return e.builtin_isinstance(a[0], a[1])
+    for has_handler in (True, False):
+        for shape in ('list', 'one', 'none', 'empty'):
+            disp, the_node = PObj(object, name='dispatcher'), PObj(object, name='node')
+            slf = PObj(module.Declare, name='self')
+            slf.fields['attr'] = 'params'
+            declared = PList([])
+            wrong = {'n': 0}
+            target = {'list': PList(SSeq(ITEMS, NODE)), 'one': SOpaque(z3.Const('the_identifier', NS), NODE), 'none': None, 'empty': PList([])}[shape]
+            the_node.fields['params'] = target
+
+            def handler(e, a, k, disp=disp, declared=declared, wrong=wrong):
+                # the handler of the rule set: (dispatcher, identifier)
+                if len(a) == 2 and a[0] is disp and isinstance(a[1], SOpaque) and not k:
+                    e.call_method(declared, "append", [a[1]], {}, None)
+                else:
+                    wrong['n'] += 1
+                return None
+            hext = PExt('deferrable_handler', handler)
+
+            def lookup(e, a, k, slf=slf, hext=hext, has_handler=has_handler, wrong=wrong):
+                if len(a) != 1 or a[0] is not slf:
+                    wrong['n'] += 1
+                return hext if has_handler else NotImplemented
+            disp.fields['deferrable'] = PExt('Dispatcher.deferrable', lookup)
+
+            def reset(declared=declared, wrong=wrong):
+                declared.val = []
+                wrong['n'] = 0
+            env = {'__reset__': reset, 'isinstance': PExt('isinstance', isinstance_model), 'declared': declared,
+                   'items': Helper(lambda e: PList(SSeq(ITEMS, NODE))),
+                   'nprefix': Helper(lambda e, s, j: PList(SSeq(z3.Extract(nseq(s), z3.IntVal(0), kt(j)), NODE))),
+                   'nprefix_step': Helper(lambda e, s, j: SBool(z3.Implies(
+                       z3.And(kt(j) >= 0, kt(j) < z3.Length(nseq(s))),
+                       z3.Extract(nseq(s), z3.IntVal(0), kt(j) + 1) == z3.Concat(z3.Extract(nseq(s), z3.IntVal(0), kt(j)), z3.Unit(nseq(s)[kt(j)]))))),
+                   'nprefix_all': Helper(lambda e, s: SBool(z3.And(z3.Extract(nseq(s), z3.IntVal(0), z3.Length(nseq(s))) == nseq(s),
+                                                                 z3.Extract(nseq(s), z3.IntVal(0), z3.IntVal(0)) == nempty))),
+                   'all_identifiers': Helper(lambda e: SBool(z3.ForAll([z3.Int('i')], z3.Implies(z3.And(z3.Int('i') >= 0, z3.Int('i') < z3.Length(ITEMS)), is_ident(ITEMS[z3.Int('i')]))))),
+                   'is_ident': Helper(lambda e, n: SBool(is_ident(n.t))),
+                   'no_wrong_calls': Helper(lambda e, wrong=wrong: wrong['n'] == 0),
+                   'the_target': Helper(lambda e, target=target: target),
+                   'same': Helper(lambda e, a, b: (a is b) or (isinstance(a, PList) and isinstance(b, PList) and isinstance(a.val, SSeq) and isinstance(b.val, SSeq) and a.val.t.eq(b.val.t))
+                                  or (isinstance(a, SOpaque) and isinstance(b, SOpaque) and a.t.eq(b.t)))}
+            params = {'self': Const(slf), 'dispatcher': Const(disp), 'node': Const(the_node)}
+            if shape == 'list':
+                req = ['len(items()) > 0', 'all_identifiers()']
+                ens = ['same(result, the_target())', 'no_wrong_calls()', 'declared == items()' if has_handler else 'len(declared) == 0']
+                loops = [Loop(index='k', inv=['declared == nprefix(items(), k)'], modifies=('declared',), types={'declared': ListOf(NODE)})]
+                uses = {'entry': ['nprefix_all(items())'], 'loop0.entry': ['nprefix_all(items())'], 'loop0.preserve': ['nprefix_step(items(), k - 1)'],
+                        'loop0.exit': ['nprefix_all(items())'], 'post': ['nprefix_all(items())']}
+            elif shape == 'one':
+                req = ['is_ident(the_target())']
+                ens = ['same(result, the_target())', 'no_wrong_calls()', ('len(declared) == 1 and same(declared[0], the_target())') if has_handler else 'len(declared) == 0']
+                loops, uses = [Loop(index='k', inv=['True'])], {}
+            else:
+                req = []
+                ens = ['result is the_target()', 'len(declared) == 0', 'no_wrong_calls()']
+                loops, uses = [Loop(index='k', inv=['True'])], {}
+            cs.append(Contract(MODULE + ':Declare.__call__', params=params, requires=req, ensures=ens, loops=loops, uses=uses, env=env,
+                               hints={'loops_may_be_unreachable': shape != 'list' or not has_handler},
+                               notes='attribute: %s, %s' % ({'list': 'a list of identifiers (any length)', 'one': 'one identifier', 'none': 'None', 'empty': 'an empty list'}[shape],
+                                                            'handler present' if has_handler else 'no handler')))
+    return cs
